@@ -1363,7 +1363,7 @@ OFS_NAMES = [
     (SUB, ['Cls', 'attr']),
     ('collections', ['ChainMap']), ('collections.abc', ['Mapping']),
     ('json.decoder', ['JSONDecoder', 'decode']), ('os', ['path', 'join']),
-]
+] + [(MOD, _attrs) for _, _attrs in FALSY_OBJECTS]     # false named objects
 
 
 def run_ofs_case(case):
@@ -1393,6 +1393,8 @@ def run_ofs_case(case):
             'ofs_nested_attr' if len(attrs) > 1 else 'ofs_attr': 1}
     if '.' in module:
         hits['ofs_submodule'] = 1
+    if not exp:
+        hits['ofs_falsy_object'] = 1
     return {'calls': 2, 'hits': hits, 'key': name}
 
 
@@ -1440,7 +1442,7 @@ def with_steps(entry, sparse, procs, ents, split_char='/', first=(),
     holds a $res{} / $handle{} marker go on with the reload step (that case
     contains the single-load case: same first load, same checks).  ``first``:
     steps in front of it; the tree options are only written for a delimiter
-    other than the stock one."""
+    other than the stock one / for a flavour of falsy resource handles."""
     steps = list(first)
     if entry.startswith('file') and has_resource_ref(procs, ents):
         steps.append(RELOAD)
@@ -1542,14 +1544,18 @@ def entity_lists(comp_lists, max_entities):
     return out
 
 
-def structure_cases(proc_lists, ent_lists, sparses, entries, split_char='/'):
+def structure_cases(proc_lists, ent_lists, sparses, entries, split_char='/',
+                    falsy=None):
     cases = []
     for ents in ent_lists:
         for procs in proc_lists:
             for sparse in sparses:
                 for entry in entries:
+                    if falsy is not None and not has_resource_ref(procs,
+                                                                  ents):
+                        continue
                     cases.append(with_steps(entry, sparse, procs, ents,
-                                            split_char))
+                                            split_char, falsy=falsy))
     return cases
 
 
@@ -1557,7 +1563,7 @@ FILE_PLACEMENTS = ('file_root', 'file_composite', 'file_submap')
 FILE_ENTRIES = FILE_PLACEMENTS + (EXTRA_ENTRY, )
 
 
-def one_argument_cases(value, entries, split_char):
+def one_argument_cases(value, entries, split_char, falsy=None):
     """The value as the only argument: positional / keyword x component /
     processor x entries."""
     cases = []
@@ -1565,9 +1571,9 @@ def one_argument_cases(value, entries, split_char):
         for entry in entries:
             cases.append(with_steps(entry, True, [],
                                     [[None, [['P', args, kwargs]]]],
-                                    split_char))
+                                    split_char, falsy=falsy))
             cases.append(with_steps(entry, True, [['A', args, kwargs]], [],
-                                    split_char))
+                                    split_char, falsy=falsy))
     return cases
 
 
@@ -1606,6 +1612,8 @@ def path_cases(pairs):
 
 
 CUSTOM_SPLIT_CHARS = tuple(c for c in SPLIT_CHARS if c != '/')
+# resource keys of the quick part 'falsy-handles' (thorough: all of PATH_KEYS)
+FALSY_PATH_NAMES = ['identifier', 'dash', 'blank']
 
 
 def delimiter_cases(proc_lists, ent_lists, sparses):
@@ -1635,7 +1643,66 @@ PF = ['P', [V_RES, V_LATE], {'k': V_HANDLE}]
 AF = ['A', [V_LATE], {'k': V_RES}]
 
 
-def failed_attempt_cases(proc_lists, ent_lists, sparses, split_chars):
+def falsy_object_cases(others, entries):
+    """Part 'falsy-objects': the slot-wise argument family whose varying
+    slot runs over FALSY_MENU (${...} naming an object that is false in a
+    boolean context) while the other slots run over ``others``."""
+    cases = []
+    for args, kwargs in arg_shapes_slotwise(FALSY_MENU, others):
+        if not has_kind([], [[None, [['P', args, kwargs]]]], FALSY_NAME_OF):
+            continue
+        for entry in entries:
+            cases.append(with_steps(entry, True, [],
+                                    [[None, [['P', args, kwargs]]]]))
+            cases.append(with_steps(entry, True, [['A', args, kwargs]], []))
+    return cases
+
+
+def falsy_handle_cases(proc_lists, blocks, path_names, split_chars,
+                       fail_ent_lists):
+    """Part 'falsy-handles': for every flavour of FALSY_FLAVOURS
+    - for every (delimiter, entity lists, sparse values) of ``blocks`` the
+      structure family (descriptions without a resource marker left out) x
+      file entries, reload step included;
+    - the slot-wise argument family (whole menu in one slot, the others
+      over {1, $res{a.b}, $handle{a.b}}), descriptions with a resource
+      marker, x file placements;
+    - the keys ``path_names`` at every position as $res{} / $handle{}, one
+      argument, x file placements x delimiters;
+    - the failed-first-attempt family of ``fail_ent_lists`` under '/'."""
+    cases = []
+    shapes = [(args, kwargs) for args, kwargs in arg_shapes_slotwise(
+        MENU, [1, V_RES, V_HANDLE])
+        if has_resource_ref([], [[None, [['P', args, kwargs]]]])]
+    keys = dict(PATH_KEYS)
+    for flavour in FALSY_FLAVOURS:
+        for split_char, ent_lists, sparses in blocks:
+            cases += structure_cases(proc_lists, ent_lists, sparses,
+                                     FILE_ENTRIES, split_char, flavour)
+        for split_char in split_chars:
+            for name in path_names:
+                if not path_legal([keys[name]], split_char):
+                    continue
+                for position in PATH_POSITIONS:
+                    for which in ('res', 'handle'):
+                        cases += one_argument_cases(
+                            PATH_MARKER[which, name, position],
+                            FILE_PLACEMENTS, split_char, flavour)
+        for args, kwargs in shapes:
+            cases += [with_steps(entry, True, [],
+                                 [[None, [['P', args, kwargs]]]],
+                                 falsy=flavour)
+                      for entry in FILE_PLACEMENTS]
+            cases += [with_steps(entry, True, [['A', args, kwargs]], [],
+                                 falsy=flavour)
+                      for entry in FILE_PLACEMENTS]
+        cases += failed_attempt_cases(processor_lists([AF]), fail_ent_lists,
+                                      [True], ['/'], flavour)
+    return cases
+
+
+def failed_attempt_cases(proc_lists, ent_lists, sparses, split_chars,
+                         falsy=None):
     """Every description x file entry x every fail step it can take (cause
     'file': all; 'resource': a $res{} marker; 'module': a ${late.OBJ}
     marker)."""
@@ -1648,13 +1715,15 @@ def failed_attempt_cases(proc_lists, ent_lists, sparses, split_chars):
                     causes.append('resource')
                 if has_late_ref(procs, ents):
                     causes.append('module')
+                if falsy is not None and not has_resource_ref(procs, ents):
+                    continue
                 for sparse in sparses:
                     for entry in FILE_ENTRIES:
                         for step in FAIL_STEPS:
                             if step.split('_')[1] in causes:
                                 cases.append(with_steps(
                                     entry, sparse, procs, ents, split_char,
-                                    first=[step]))
+                                    first=[step], falsy=falsy))
     return cases
 
 
@@ -1719,6 +1788,34 @@ def families(tier):
                  components='<= 2 distinct of PF, H in both orders',
                  ids=IDS, max_entities=1, AF=AF, PF=PF, entries=FILE_ENTRIES,
                  extra_entity=EXTRA_ENTITY))
+        others = [V_OBJ, V_RES]
+        fam['falsy-objects'] = (
+            run_world_case, falsy_object_cases(others, ENTRIES),
+            dict(mode='slot-wise', menu=FALSY_MENU, others=others,
+                 objects=dict(FALSY_OBJECTS),
+                 carriers=['component', 'processor'], entries=ENTRIES))
+        fam['falsy-handles'] = (
+            run_world_case,
+            falsy_handle_cases(
+                processor_lists([A1]),
+                [(c, entity_lists(component_lists([P1, P2]), 1), [True])
+                 for c in ('/', ':')],
+                FALSY_PATH_NAMES, ['/', ':'],
+                entity_lists(component_lists([PF]), 1)),
+            dict(flavours=FALSY_FLAVOURS, split_chars=['/', ':'],
+                 structure=[dict(split_char=c, max_entities=1, sparse=[True])
+                            for c in ('/', ':')],
+                 processors='sub-lists of [A1, B] in both orders',
+                 components='<= 2 distinct of P1|P2, H in both orders',
+                 ids=IDS, A1=A1, P1=P1, P2=P2,
+                 entries=FILE_ENTRIES, extra_entity=EXTRA_ENTITY,
+                 arguments=dict(mode='slot-wise', menu=MENU,
+                                others=[1, V_RES, V_HANDLE],
+                                entries=FILE_PLACEMENTS),
+                 path_keys=FALSY_PATH_NAMES,
+                 positions=sorted(PATH_POSITIONS),
+                 failed_first_attempt=dict(
+                     steps=list(FAIL_STEPS), max_entities=1, AF=AF, PF=PF)))
     else:
         fam['arguments'] = (
             run_world_case, argument_cases(arg_shapes_full(MENU), ENTRIES),
@@ -1791,6 +1888,40 @@ def families(tier):
                  components='<= 2 distinct of PF, H in both orders',
                  ids=IDS, max_entities=2, AF=AF, PF=PF,
                  entries=FILE_ENTRIES, extra_entity=EXTRA_ENTITY))
+        others = [1, V_OBJ, V_RES, V_HANDLE]
+        fam['falsy-objects'] = (
+            run_world_case, falsy_object_cases(others, ENTRIES),
+            dict(mode='slot-wise', menu=FALSY_MENU, others=others,
+                 objects=dict(FALSY_OBJECTS),
+                 carriers=['component', 'processor'], entries=ENTRIES))
+        all_names = [name for name, _ in PATH_KEYS]
+        fam['falsy-handles'] = (
+            run_world_case,
+            falsy_handle_cases(
+                processor_lists([A1]),
+                [('/', entity_lists(component_lists([P1, P2]), 2), [True]),
+                 ('/', entity_lists(component_lists([P1, P2]), 1), [False])]
+                + [(c, entity_lists(component_lists([P1, P2]), 1),
+                    [True, False]) for c in CUSTOM_SPLIT_CHARS],
+                all_names, SPLIT_CHARS,
+                entity_lists(component_lists([PF]), 1)),
+            dict(flavours=FALSY_FLAVOURS, split_chars=SPLIT_CHARS,
+                 structure=[dict(split_char='/', max_entities=2,
+                                 sparse=[True]),
+                            dict(split_char='/', max_entities=1,
+                                 sparse=[False])]
+                 + [dict(split_char=c, max_entities=1, sparse=[True, False])
+                    for c in CUSTOM_SPLIT_CHARS],
+                 processors='sub-lists of [A1, B] in both orders',
+                 components='<= 2 distinct of P1|P2, H in both orders',
+                 ids=IDS, A1=A1, P1=P1, P2=P2,
+                 entries=FILE_ENTRIES, extra_entity=EXTRA_ENTITY,
+                 arguments=dict(mode='slot-wise', menu=MENU,
+                                others=[1, V_RES, V_HANDLE],
+                                entries=FILE_PLACEMENTS),
+                 path_keys=all_names, positions=sorted(PATH_POSITIONS),
+                 failed_first_attempt=dict(
+                     steps=list(FAIL_STEPS), max_entities=1, AF=AF, PF=PF)))
     return fam
 
 
@@ -1887,14 +2018,44 @@ RULE = (
     'the handle under test, other = through another WorldFromFileHandle on '
     'the same file stored at root key w2), thorough also under delimiter '
     '":"; the attempt is made, the cause removed, and the load under test '
-    '(plus reload step) must pass every clause.  A case is '
+    '(plus reload step) must pass every clause.  Part "falsy-objects": '
+    'the referent of a ${...} marker is FALSE in a boolean context - 10 '
+    'named objects of the harness module: 0, False, None, (), "", an empty '
+    'list, an empty dict, an IntEnum member of value 0 (${mod.Layer.'
+    'BACKGROUND}), an instance whose __bool__() is False, an instance whose '
+    '__len__() is 0; slot-wise argument family (the varying slot runs over '
+    'these 10 markers, the other slots over {${mod.OBJ}, $res{a.b}}; '
+    'thorough: {1, ${mod.OBJ}, $res{a.b}, $handle{a.b}}) x {component, '
+    'processor} x 5 entries, reload step where a resource marker is there; '
+    'expected: the named object itself, by identity; part "object-from-'
+    'string" lists the same 10 dotted names.  Part "falsy-handles": tree '
+    'option falsy = one of 3 flavours: EVERY resource handle of the tree is '
+    'an instance of a Handle subclass that is false in a boolean context '
+    '(__len__() == 0 / __bool__() False / __bool__() == cached) and loads a '
+    'resource that is false too (a fresh empty list / an instance whose '
+    '__bool__() is False / None); per flavour: the structure family of part '
+    '"delimiter" (descriptions that hold a resource marker only; 4 file '
+    'entries; quick: delimiters "/" and ":", 0-1 entities, empty keys '
+    'omitted; thorough: "/" with 0-2 entities, and all four delimiters with '
+    '0-1 entities and empty keys omitted / written), the slot-wise argument '
+    'family (one slot over the 14-value menu, the others over {1, '
+    '$res{a.b}, $handle{a.b}}, shapes with a resource marker) x {component, '
+    'processor} x 3 file placements, the resource keys {identifier, dash, '
+    'blank} (thorough: all) x 4 positions x {$res, $handle} x {positional, '
+    'keyword} x {component, processor} x 3 file placements x delimiters '
+    '{"/", ":"} (thorough: all four), and the failed-first-attempt family '
+    'with 0-1 entities under "/"; every case with the reload step; '
+    'expected as everywhere: the handle stored at the path / what its '
+    'load() returned last, by identity.  A case is '
     'distinct by its JSON text; non-trivial = it passed the oracle while '
     'exercising a named shortcut (reference kinds, id kinds, handler '
     'component, handle placement, further transform function, reload after '
     'the resource was replaced, empty string argument, subclass processor '
     'before / after its base, another handle customised first / later, '
     'resource key classes and positions, custom delimiter, load after a '
-    'failed attempt by cause and by handle).')
+    'failed attempt by cause and by handle, each false named object, a '
+    'handle / a loaded resource that is false when the component holds it, '
+    'per flavour, a false handle below a sub-map).')
 
 ASSUMPTIONS = [
     'out of the alphabet: malformed markers (unterminated, trailing text '
@@ -1979,6 +2140,19 @@ ASSUMPTIONS = [
     'transient and external (resource handle load() raising, missing world '
     'file, module not yet in sys.modules); the lru_cache of '
     'object_from_string is not cleared between attempt and load',
+    'falsy referents: the statement says "the named Python object", "the '
+    'loaded resource", "the resource\'s handle" without any condition on '
+    'what bool() of that object answers, and Handle is a base class for '
+    'user code; the oracle therefore expects a false referent exactly as a '
+    'true one (identity).  The harness handles define __len__ / __bool__ '
+    'only - no __eq__, no __hash__ change; the harness itself never '
+    'branches on the truth value of a handle or a resource (it only counts '
+    'the coverage names falsy_handle_ref / falsy_resource_ref when the '
+    'object a component received is false at that moment).  Sub-maps and '
+    'the world handle itself are stock (true) objects; a falsy component / '
+    'processor TYPE is not in the alphabet.  In a tree of flavour '
+    'false_until_loaded a handle named only by $handle{} is false when it '
+    'is resolved, one also named by $res{} earlier in the file is true',
     'named objects of the main menu are deep-copyable instances; objects '
     'that cannot be deep-copied (a lock, a module) and a named str whose '
     'text looks like a resource marker are confined to part extra-forms',
@@ -2030,6 +2204,18 @@ def run(tier, rep):
                      load_after_missing_module=1,
                      load_after_failed_attempt_of_the_same_handle=1,
                      load_after_failed_attempt_of_another_handle=1,
+                     # falsy-objects
+                     falsy_object_ref=1, falsy_object_kwarg_ref=1,
+                     falsy_object_processor_arg_ref=1, ofs_falsy_object=1,
+                     **{kind: 1 for kind in FALSY_NAME_OF},
+                     # falsy-handles
+                     falsy_handle_ref=1, falsy_resource_ref=1,
+                     falsy_handle_ref_below_a_sub_map=1,
+                     falsy_handles_after_failed_attempt=1,
+                     **{'falsy_handles_' + f: 1 for f in FALSY_FLAVOURS},
+                     **{'falsy_handle_ref_' + f: 1 for f in FALSY_FLAVOURS},
+                     **{'falsy_resource_ref_' + f: 1
+                        for f in FALSY_FLAVOURS},
                      **{'path_key_' + name: 1 for name, _ in PATH_KEYS},
                      **{'path_position_' + pos: 1 for pos in PATH_POSITIONS})
     saved = {name: sys.modules.get(name) for name in _MODULE_NAMES}
@@ -2047,12 +2233,15 @@ def run(tier, rep):
         rep.extra['c15_case_forms'] = [
             '(entry, sparse, processors, entities)',
             '(entry, sparse, processors, entities, steps)',
-            '(entry, sparse, processors, entities, steps, tree options)']
+            '(entry, sparse, processors, entities, steps, tree options: '
+            'split_char, falsy)']
         rep.extra['c15_steps'] = list(STEPS)
         rep.extra['c15_path_keys'] = dict(PATH_KEYS)
         rep.extra['c15_path_positions'] = {
             pos: make('<key>') for pos, make in PATH_POSITIONS.items()}
         rep.extra['c15_split_chars'] = list(SPLIT_CHARS)
+        rep.extra['c15_falsy_object_menu'] = dict(FALSY_MARKER)
+        rep.extra['c15_falsy_handle_flavours'] = list(FALSY_FLAVOURS)
     finally:
         shutil.rmtree(_SCRATCH, ignore_errors=True)
         _SCRATCH = None
@@ -2070,7 +2259,8 @@ def replay(rec):
         runner = run_ofs_case
     elif part in ('arguments', 'extra-forms', 'structure', 'structure-3',
                   'processor-subclass', 'resource-paths', 'delimiter',
-                  'delimiter-arguments', 'failed-first-attempt'):
+                  'delimiter-arguments', 'failed-first-attempt',
+                  'falsy-objects', 'falsy-handles'):
         runner = run_world_case
     else:
         raise SystemExit(f'unknown part {part}')
